@@ -12,6 +12,10 @@ import (
 
 	"go.pennock.tech/tabular"
 	"go.pennock.tech/tabular/auto"
+	"go.pennock.tech/tabular/csv"
+	"go.pennock.tech/tabular/json"
+	"go.pennock.tech/tabular/markdown"
+	"go.pennock.tech/tabular/texttable"
 	"go.pennock.tech/tabular/properties/align"
 
 	"verif/harness/internal/ev"
@@ -165,6 +169,36 @@ func FaultPoint(c Case, k int, mode string, want string) *ev.Violation {
 	got := fw.accepted.String()
 	if len(got) > len(want) || want[:len(got)] != got {
 		return ev.V("%s: write %d failed (%s): the bytes the writer accepted are not a prefix of the fault-free output (rendering went on after the failure)\n--- accepted\n%q\n--- fault-free\n%q", c.Style, k, mode, got, want)
+	}
+	// the package-level entry points are renderers too: the same fault, on a fresh writer each
+	entries := map[string]func(io.Writer) error{
+		"auto.RenderTo(t, w, style)": func(w io.Writer) error { return auto.RenderTo(t, w, c.Style) },
+	}
+	switch c.Style {
+	case "csv":
+		entries["csv.RenderTo(t, w)"] = func(w io.Writer) error { return csv.RenderTo(t, w) }
+	case "json":
+		entries["json.RenderTo(t, w)"] = func(w io.Writer) error { return json.RenderTo(t, w) }
+	case "markdown":
+		entries["markdown.RenderTo(t, w)"] = func(w io.Writer) error { return markdown.RenderTo(t, w) }
+	case "utf8-heavy":
+		entries["texttable.RenderTo(t, w)"] = func(w io.Writer) error { return texttable.RenderTo(t, w) }
+	}
+	for name, f := range entries {
+		fwe := &faultWriter{k: k, mode: mode}
+		var erre error
+		if v := ev.Guard(func() *ev.Violation { erre = f(c.writer(fwe)); return nil }); v != nil {
+			return ev.V("%s, %s, write %d fails (%s): %s", c.Style, name, k, mode, v.Msg)
+		}
+		if fwe.calls <= k {
+			continue
+		}
+		if erre == nil {
+			return ev.V("%s: %s: write %d failed (%s) but it returned nil; the writer accepted %q", c.Style, name, k, mode, fwe.accepted.String())
+		}
+		if g := fwe.accepted.String(); len(g) > len(want) || want[:len(g)] != g {
+			return ev.V("%s: %s: write %d failed (%s): the bytes the writer accepted are not a prefix of the fault-free output\n--- accepted\n%q\n--- fault-free\n%q", c.Style, name, k, mode, g, want)
+		}
 	}
 	// fault sequences on one wrapper: the same wrapper is asked again, first with another failing writer
 	// (the prefix property holds for that render too), then with a healthy one (the full output)
